@@ -502,8 +502,43 @@ func runC11(w *World, c *Check) {
 	}
 	sort.Strings(bl)
 	c.Decide(len(bl) == 0, "C11.lockorder", "client", "no-exchange-under-lock", "-", "no KDC exchange, network call or sleep is reached while a client lock is held", strings.Join(bl, "; "))
+	// a send made while a lock is held must not wait for a receiver: the channel it goes to is created
+	// with room for the signal (every make(chan …) stored into that field has a constant capacity ≥ 1)
 	for _, k := range sortedKeys(chanUnderLock) {
-		c.Note("C11.lockorder", "client", "chan-send:"+k, "-", chanUnderLock[k]+" (buffered channel of capacity 1: can block only if cancelled twice without a receiver)")
+		term := k[strings.Index(k, "|")+1:]
+		field := term[strings.LastIndex(term, ".")+1:]
+		nMake, unbuffered := 0, ""
+		for _, fn := range w.ModuleFuncs() {
+			if fn.Pkg == nil || relPkg(fn.Pkg.Pkg.Path()) != "client" {
+				continue
+			}
+			for _, b := range fn.Blocks {
+				for _, in := range b.Instrs {
+					st, ok := in.(*ssa.Store)
+					if !ok {
+						continue
+					}
+					fad, ok := st.Addr.(*ssa.FieldAddr)
+					if !ok {
+						continue
+					}
+					stt, ok := fad.X.Type().Underlying().(*types.Pointer).Elem().Underlying().(*types.Struct)
+					if !ok || stt.Field(fad.Field).Name() != field {
+						continue
+					}
+					mk, ok := st.Val.(*ssa.MakeChan)
+					if !ok {
+						continue
+					}
+					nMake++
+					if n, isC := constInt(mk.Size); !isC || n < 1 {
+						unbuffered = w.Pos(InstrPos(mk))
+					}
+				}
+			}
+		}
+		c.Decide(nMake > 0 && unbuffered == "", "C11.lockorder", "client", "chan-send:"+k, "-", "a channel sent on while a lock is held has room for the signal (capacity ≥ 1): the send cannot wait for a receiver that has ended or is itself waiting for the lock",
+			fmt.Sprintf("%s; the channel is created without buffer at %s (%d creation sites found)", chanUnderLock[k], unbuffered, nMake))
 	}
 
 	// ---- read-only configuration API ---------------------------------------------------------
